@@ -27,3 +27,9 @@ func (c *Cluster) verifDelegate() *delegate {
 }
 func (c *Cluster) VerifLocalState() []byte          { return c.verifDelegate().LocalState(false) }
 func (c *Cluster) VerifMergeRemoteState(buf []byte) { c.verifDelegate().MergeRemoteState(buf, false) }
+
+// The same with memberlist's join flag (set on both ends of the push/pull exchange of a join).
+func (c *Cluster) VerifLocalStateJoin(join bool) []byte { return c.verifDelegate().LocalState(join) }
+func (c *Cluster) VerifMergeRemoteStateJoin(buf []byte, join bool) {
+	c.verifDelegate().MergeRemoteState(buf, join)
+}
